@@ -23,7 +23,11 @@ if [ -z "$nosuite" ]; then
   # the three tracer tests write to fixed paths under /tmp and collide with (or hang under) suite runs going on elsewhere
   # on the machine: they are run separately, alone, up to three times
   TR='^(TestJSONTracer|TestPBTracer|TestRemoteTracer)$'
-  (cd $wt && $GO test -json -vet=off -count=1 -timeout 25m -skip "$TR" ./... > $d/suite_with.json 2>&1)
+  # a few of the repository's tests can hang under load (a timeout, not a failure): one more attempt then
+  for att in 1 2; do
+    (cd $wt && $GO test -json -vet=off -count=1 -timeout 15m -skip "$TR" ./... > $d/suite_with.json 2>&1)
+    grep -q "panic: test timed out" $d/suite_with.json || break
+  done
   for k in 1 2 3; do
     (cd $wt && timeout 600 $GO test -json -vet=off -count=1 -timeout 8m -run "$TR" . > $d/suite_tracers.json 2>&1) && break
   done
